@@ -208,13 +208,15 @@ theorem prewf_semGiven (p : SessParams) (a : ReqAttr) (h : WFReqAttr a) :
     · simp only [List.mem_singleton] at hx; subst hx
       exact prewf_mk _ _ _ _ rfl (u32s_flat3 cs h)
 
-theorem negLocalAs_lt (p : SessParams) : negLocalAs p < 65536 := by
+theorem negLocalAs_u32 (p : SessParams) (hl : U32 p.localAs) : U32 (negLocalAs p) := by
   unfold negLocalAs
   split
-  · simp [exaAsTrans]
-  · rename_i h; simp [asnMax2] at h; omega
+  · exact hl
+  · split
+    · simp [exaAsTrans, U32]
+    · exact hl
 
-theorem defaultPath_ok (p : SessParams) : PathOk (defaultPath p) := by
+theorem defaultPath_ok (p : SessParams) (hl : U32 p.localAs) : PathOk (defaultPath p) := by
   unfold defaultPath
   split
   · intro s hs; cases hs
@@ -225,10 +227,9 @@ theorem defaultPath_ok (p : SessParams) : PathOk (defaultPath p) := by
     intro a ha
     simp only [List.mem_singleton] at ha
     subst ha
-    have := negLocalAs_lt p
-    unfold U32; omega
+    exact negLocalAs_u32 p hl
 
-theorem prewf_semCode (p : SessParams) (r : RouteReq) (nh : Bytes) (c : Nat)
+theorem prewf_semCode (p : SessParams) (r : RouteReq) (nh : Bytes) (c : Nat) (hl : U32 p.localAs)
     (hw : ∀ a ∈ r.attrs, WFReqAttr a) (hnh : nh.length = 4 → WFBytes nh) :
     ∀ x ∈ semCode p r nh c, PreWF (paramsOf p) x := by
   unfold semCode
@@ -250,7 +251,7 @@ theorem prewf_semCode (p : SessParams) (r : RouteReq) (nh : Bytes) (c : Nat)
       · simp only [h1, if_false]
         by_cases h2 : c = 2
         · simp only [h2, if_true]
-          exact prewf_semAsPath p _ (defaultPath_ok p)
+          exact prewf_semAsPath p _ (defaultPath_ok p hl)
         · simp only [h2, if_false]
           by_cases h5 : c = 5
           · simp only [h5, if_true]
@@ -266,13 +267,13 @@ theorem prewf_semCode (p : SessParams) (r : RouteReq) (nh : Bytes) (c : Nat)
       · intro x hx; cases hx
       · exact prewf_semGiven p a (wf_given r.attrs hw c a hg)
 
-theorem prewf_semAll (p : SessParams) (r : RouteReq) (nh : Bytes)
+theorem prewf_semAll (p : SessParams) (r : RouteReq) (nh : Bytes) (hl : U32 p.localAs)
     (hw : ∀ a ∈ r.attrs, WFReqAttr a) (hnh : nh.length = 4 → WFBytes nh) :
     ∀ x ∈ semAll p r nh, PreWF (paramsOf p) x := by
   intro x hx
   simp only [semAll, List.mem_flatMap] at hx
   obtain ⟨c, _, hc⟩ := hx
-  exact prewf_semCode p r nh c hw hnh x hc
+  exact prewf_semCode p r nh c hl hw hnh x hc
 
 /-! ### type codes of a slot -/
 
@@ -283,33 +284,33 @@ theorem codes_semAsPath (p : SessParams) (segs : List Seg) :
     List.Sublist ((semAsPath p segs).map Attr.code) [2, 17] := by
   unfold semAsPath
   split
-  · simp only [List.map_cons, List.map_nil, mk, Attr.code, AttrVal.code]; decide +revert
+  · simp only [List.map_cons, List.map_nil, mk, Attr.code, AttrVal.code]; simp [slot]
   · split
-    · simp only [List.map_cons, List.map_nil, mk, Attr.code, AttrVal.code]; decide +revert
-    · simp only [List.map_cons, List.map_nil, mk, Attr.code, AttrVal.code]; decide +revert
+    · simp only [List.map_cons, List.map_nil, mk, Attr.code, AttrVal.code]; simp [slot]
+    · simp only [List.map_cons, List.map_nil, mk, Attr.code, AttrVal.code]; simp [slot]
 
 theorem codes_semAggregator (p : SessParams) (asn ip : Nat) :
     List.Sublist ((semAggregator p asn ip).map Attr.code) [7, 18] := by
   unfold semAggregator
   split
-  · simp only [List.map_cons, List.map_nil, mk, Attr.code, AttrVal.code]; decide +revert
+  · simp only [List.map_cons, List.map_nil, mk, Attr.code, AttrVal.code]; simp [slot]
   · split
-    · simp only [List.map_cons, List.map_nil, mk, Attr.code, AttrVal.code]; decide +revert
-    · simp only [List.map_cons, List.map_nil, mk, Attr.code, AttrVal.code]; decide +revert
+    · simp only [List.map_cons, List.map_nil, mk, Attr.code, AttrVal.code]; simp [slot]
+    · simp only [List.map_cons, List.map_nil, mk, Attr.code, AttrVal.code]; simp [slot]
 
 theorem codes_semGiven (p : SessParams) (a : ReqAttr) : List.Sublist ((semGiven p a).map Attr.code) (slot a.code) := by
   cases a with
   | asPath segs => exact codes_semAsPath p segs
   | aggregator asn ip => exact codes_semAggregator p asn ip
   | communities cs =>
-    simp only [semGiven]; split <;> simp only [List.map_cons, List.map_nil, mk, Attr.code, AttrVal.code, ReqAttr.code, slot] <;> decide +revert
+    simp only [semGiven]; split <;> simp only [List.map_cons, List.map_nil, mk, Attr.code, AttrVal.code, ReqAttr.code, slot] <;> simp [slot]
   | clusterList cs =>
-    simp only [semGiven]; split <;> simp only [List.map_cons, List.map_nil, mk, Attr.code, AttrVal.code, ReqAttr.code, slot] <;> decide +revert
+    simp only [semGiven]; split <;> simp only [List.map_cons, List.map_nil, mk, Attr.code, AttrVal.code, ReqAttr.code, slot] <;> simp [slot]
   | extCommunities cs =>
-    simp only [semGiven]; split <;> simp only [List.map_cons, List.map_nil, mk, Attr.code, AttrVal.code, ReqAttr.code, slot] <;> decide +revert
+    simp only [semGiven]; split <;> simp only [List.map_cons, List.map_nil, mk, Attr.code, AttrVal.code, ReqAttr.code, slot] <;> simp [slot]
   | largeCommunities cs =>
-    simp only [semGiven]; split <;> simp only [List.map_cons, List.map_nil, mk, Attr.code, AttrVal.code, ReqAttr.code, slot] <;> decide +revert
-  | _ => simp only [semGiven, List.map_cons, List.map_nil, mk, Attr.code, AttrVal.code, ReqAttr.code, slot]; decide +revert
+    simp only [semGiven]; split <;> simp only [List.map_cons, List.map_nil, mk, Attr.code, AttrVal.code, ReqAttr.code, slot] <;> simp [slot]
+  | _ => simp only [semGiven, List.map_cons, List.map_nil, mk, Attr.code, AttrVal.code, ReqAttr.code, slot]; simp [slot]
 
 theorem codes_semCode (p : SessParams) (r : RouteReq) (nh : Bytes) (c : Nat) :
     List.Sublist ((semCode p r nh c).map Attr.code) (slot c) := by
@@ -317,7 +318,7 @@ theorem codes_semCode (p : SessParams) (r : RouteReq) (nh : Bytes) (c : Nat) :
   by_cases h3 : c = 3
   · subst h3
     simp only [if_true]
-    split <;> simp only [List.map_cons, List.map_nil, mk, Attr.code, AttrVal.code, slot] <;> decide +revert
+    split <;> simp only [List.map_cons, List.map_nil, mk, Attr.code, AttrVal.code, slot] <;> simp [slot]
   · simp only [h3, if_false]
     cases hg : given r.attrs c with
     | none =>
